@@ -159,6 +159,20 @@ func c12Model(r *xrand.Rand, maxTypes, maxDepth int) (*gen.Model, string) {
 		}
 		return &gen.SNode{Kind: "object", AllOf: names(b), Props: []*gen.SProp{prop(prefix)}}
 	}
+	// deepHost: sometimes the root object of the host has no allOf rule of its own and the inheriting object stands inside
+	// it, as a property value or as the item of an array property
+	deepHost := func(prefix string) *gen.SNode {
+		h := host(prefix)
+		switch r.Intn(4) {
+		case 0:
+			uid++
+			return &gen.SNode{Kind: "object", Props: []*gen.SProp{prop(prefix + "o"), {Key: fmt.Sprintf("%sin%d", prefix, uid), Node: h}}}
+		case 1:
+			uid++
+			return &gen.SNode{Kind: "object", Props: []*gen.SProp{{Key: fmt.Sprintf("%sitems%d", prefix, uid), Node: &gen.SNode{Kind: "array", Items: []*gen.SNode{h}}}, prop(prefix + "o")}}
+		}
+		return h
+	}
 	hosts := ""
 	m := &gen.Model{}
 	m.Blocks = append(m.Blocks, types...)
@@ -166,7 +180,7 @@ func c12Model(r *xrand.Rand, maxTypes, maxDepth int) (*gen.Model, string) {
 	if r.Chance(2, 3) {
 		me := &gen.Method{Verb: "POST", Path: "/h1/{p1}", OwnPath: true}
 		if r.Bool() {
-			me.Request = &gen.Request{Body: gen.Body{Form: "schema", Schema: host("rq"), AsChild: r.Bool()}}
+			me.Request = &gen.Request{Body: gen.Body{Form: "schema", Schema: deepHost("rq"), AsChild: r.Bool()}}
 			hosts += "request "
 			if r.Bool() {
 				me.Request.Headers = host("rqh")
@@ -174,7 +188,7 @@ func c12Model(r *xrand.Rand, maxTypes, maxDepth int) (*gen.Model, string) {
 			}
 		}
 		if r.Bool() {
-			me.Query = &gen.Query{Schema: host("q")}
+			me.Query = &gen.Query{Schema: deepHost("q")}
 			hosts += "query "
 		}
 		// responses before the one with allOf whose bodies are not JSight schemas
@@ -186,7 +200,7 @@ func c12Model(r *xrand.Rand, maxTypes, maxDepth int) (*gen.Model, string) {
 			}
 			me.Responses = append(me.Responses, &gen.Response{Code: []string{"201", "204", "301"}[r.Intn(3)], Body: b})
 		}
-		rs := &gen.Response{Code: "200", Body: gen.Body{Form: "schema", Schema: host("rs"), AsChild: r.Bool()}}
+		rs := &gen.Response{Code: "200", Body: gen.Body{Form: "schema", Schema: deepHost("rs"), AsChild: r.Bool()}}
 		hosts += "response "
 		if r.Bool() {
 			rs.Headers = host("rsh")
@@ -199,9 +213,9 @@ func c12Model(r *xrand.Rand, maxTypes, maxDepth int) (*gen.Model, string) {
 		m.Blocks = append(m.Blocks, &gen.Block{Kind: "method", Method: me})
 	}
 	if r.Chance(1, 2) {
-		rm := &gen.RPCMethod{Name: "m1", Params: host("pa")}
+		rm := &gen.RPCMethod{Name: "m1", Params: deepHost("pa")}
 		if r.Bool() {
-			rm.Result = host("re")
+			rm.Result = deepHost("re")
 		}
 		m.Blocks = append(m.Blocks, &gen.Block{Kind: "rpcurl", Path: "/rpc", RPC: []*gen.RPCMethod{rm}})
 		hosts += "rpc "
